@@ -283,40 +283,54 @@ class Watchdog(threading.Thread):
     def run(self):
         sid = os.getsid(0)
         me = os.getpid()
-        last = None
-        since = time.monotonic()
-        procs_last = None
+        self._last = None
+        self._since = time.monotonic()
+        self._procs_last = None
         while not self.stop_flag:
             time.sleep(0.1)
-            cur = (self.sh.seq.value, self.sh.progress.value, self.sh.sleeping.value, _frames_signature())
-            now = time.monotonic()
-            if cur != last or cur[2] != 0:
-                last = cur
-                since = now
-                procs_last = None
-                continue
-            if now - since < 0.5:
-                continue
-            procs = _session_procs(sid, me)
-            if procs_last is None or procs != procs_last or any(st == "R" for _, st, _ in procs):
-                if procs_last is not None and procs != procs_last:
-                    since = now - 0.5      # somebody still burns cpu: restart the quiet period
-                procs_last = procs
-                continue
-            if now - since < self.quiet:
-                continue
-            # quiescent: nobody moved for `quiet` seconds, nobody sleeps in an injected/data delay, every other
-            # process of the session is blocked (state S) and used no cpu, all thread stacks are frozen
-            pool = self.state.get("pool")
-            wit = {"phase": self.state.get("phase"), "call": self.state.get("call"), "stacks": _stack_dump(),
-                   "processes": [(p, s) for p, s, _ in procs], "quiet_s": round(now - since, 2)}
-            if pool is not None:
-                try:
-                    wit["pool_state"] = _consumer_state(pool, self.state.get("driver_ident", self.main_ident))
-                except Exception as e:
-                    wit["pool_state_error"] = repr(e)
-            self.state["finish"]("deadlock", wit)
-            return
+            try:
+                if self._tick(sid, me):
+                    return
+            except OSError as e:
+                # out of descriptors: give the reserve back and go on
+                for fd in self.state.pop("reserve", []):
+                    try:
+                        os.close(fd)
+                    except OSError:
+                        pass
+                self.state.setdefault("notes", []).append({"watchdog_oserror": repr(e)})
+
+    def _tick(self, sid, me):
+        """One sample; returns True when the run was finished (quiescent state found)."""
+        cur = (self.sh.seq.value, self.sh.progress.value, self.sh.sleeping.value, _frames_signature())
+        now = time.monotonic()
+        if cur != self._last or cur[2] != 0:
+            self._last = cur
+            self._since = now
+            self._procs_last = None
+            return False
+        if now - self._since < 0.5:
+            return False
+        procs = _session_procs(sid, me)
+        if self._procs_last is None or procs != self._procs_last or any(st in ("R", "D") for _, st, _ in procs):
+            if self._procs_last is not None and procs != self._procs_last:
+                self._since = now - 0.5      # somebody still burns cpu: restart the quiet period
+            self._procs_last = procs
+            return False
+        if now - self._since < self.quiet:
+            return False
+        # quiescent: nobody moved for `quiet` seconds, nobody sleeps in an injected/data delay, every other
+        # process of the session is blocked (state S) and used no cpu, all thread stacks are frozen
+        pool = self.state.get("pool")
+        wit = {"phase": self.state.get("phase"), "call": self.state.get("call"), "stacks": _stack_dump(),
+               "processes": [(p, s) for p, s, _ in procs], "quiet_s": round(now - self._since, 2)}
+        if pool is not None:
+            try:
+                wit["pool_state"] = _consumer_state(pool, self.state.get("driver_ident", self.main_ident))
+            except Exception as e:
+                wit["pool_state_error"] = repr(e)
+        self.state["finish"]("deadlock", wit)
+        return True
 
 
 def run_case_here(case, outpath, scratch):
@@ -344,6 +358,11 @@ def run_case_here(case, outpath, scratch):
             if state["done"]:
                 return
             state["done"] = True
+        for fd in state.pop("reserve", []):
+            try:
+                os.close(fd)
+            except OSError:
+                pass
         trace = list(instr.S.trace)
         res = {
             "status": status, "witness": witness, "calls": state["calls"], "phase": state["phase"],
@@ -356,6 +375,7 @@ def run_case_here(case, outpath, scratch):
             "occ": [[k[0], k[1], k[2], v] for k, v in instr.S.occ.items()] if case.get("want_occ") else None,
             "line_events": int(sh.progress.value),
             "notes": state.get("notes", []),
+            "thread_exceptions": state.get("thread_exceptions", []),
         }
         try:
             with open(os.path.join(scratch, "events.log")) as f:
@@ -369,6 +389,16 @@ def run_case_here(case, outpath, scratch):
         os._exit(0)
 
     state["finish"] = finish
+
+    def thread_died(args):
+        # an exception that kills a thread of the code under test (feeder, replacer) is part of the witness
+        state.setdefault("thread_exceptions", []).append(
+            f"{getattr(args.thread, 'name', '?')} ({type(args.thread).__name__}): {args.exc_type.__name__}: {args.exc_value}")
+        sys.__stderr__.write("".join(traceback.format_exception(args.exc_type, args.exc_value, args.exc_traceback))[-1500:])
+    threading.excepthook = thread_died
+    # descriptors held in reserve: a case may exhaust the descriptor table of this process (a leak in the code under test,
+    # a tight RLIMIT_NOFILE) and the watchdog must still be able to read /proc and to write the result
+    state["reserve"] = [os.open("/dev/null", os.O_RDONLY) for _ in range(16)]
     plan = {}
     for role, qn, rel, occ, kind, arg in case.get("plan", []):
         plan[(role, qn, rel, occ)] = (kind, arg)
@@ -820,7 +850,9 @@ def deadlock_finding(case, result):
             mech = "join-blocked"
         else:
             mech = "deadlock-other"
-    summary = (f"quiescent state ({w.get('quiet_s')}s, all processes blocked) in phase {phase}"
+    died = result.get("thread_exceptions") or []
+    summary = (f"{'a thread of the pool died (' + died[0][:160] + '); ' if died else ''}"
+               f"quiescent state ({w.get('quiet_s')}s, all processes blocked) in phase {phase}"
                f"{'' if w.get('call') is None else ' of call ' + str(w.get('call'))}: consumer at "
                f"{(ps.get('consumer_stack') or ['?'])[0]}, sending_work={ps.get('sending_work')}, finished="
                f"{ps.get('finished_cnt')}/{ps.get('data_cnt')}, results_q={ps.get('results_qsize')}, work_q="
